@@ -6,7 +6,11 @@ HOOK_COMMITS = ["d85c6ee", "170bde9", "43ffa35", "8043914", "4c6f2d6", "8d2eb59"
 
 # id -> (engine, category, technique, level text, level note, design ref)
 CHECKS = {
- "C17": ("E1-simnet-explorer", "model_checking",
+ "C05": ("E3-enumeration", "exploration",
+   "bounded-exhaustive grammar enumeration through the real decoder (catch_unwind) and delivery of the single-deviation neighbourhood to live real nodes on the simulated network, followed by liveness probes",
+   "All single and double field-level deviations (17 classes x every field) and structural damage of all 17 KRPC message shapes go through the real decoder; every single-deviation datagram is delivered to live server- and client-mode nodes, as the (right address, right tid) reply to every lookup kind and - with all error codes and code mixes in all arrival orders - to every put kind; all reply-latency timelines of length 7 (quick) / 9 (thorough) over {10 ms, 520 ms, 3 s}. Actor threads must survive, probes (ping, info, put+get) must succeed, no API future may panic.",
+   "A grammar neighbourhood, not all byte strings; release arithmetic.", "DESIGN.md section 6, C05"),
+  "C17": ("E1-simnet-explorer", "model_checking",
    "exhaustive enumeration of second-call relations x placements and of storer reply splits x arrival orders against a real node over a simulated network",
    "A real node with scripted storers: the second put_mutable in every relation (identical / lower / equal-other / higher seq x cas none / matching / other x salted or not) is placed before every event of the first put's lifetime and after it, with the expected local verdict derived from whether the node's snapshot shows the first put in flight; every split of ack/301/302 among 3 (quick) / 3-4 (thorough) storers in every arrival order for mutable puts, and for the other put kinds through the typed sync-equivalent async APIs.",
    "Scripted storers ack everything in part 1.", "DESIGN.md section 6, C17"),
@@ -67,7 +71,7 @@ CHECKS = {
 ENGINES = [
  ("E1-simnet-explorer", "harness/src/sim.rs, harness/src/explore.rs", "whole real nodes (real actor threads parked on a baton) on a virtual clock and in-memory network; deviation-bounded stateless DFS over fault/latency/placement choices; every execution runs the implementation"),
  ("E2-explicit-state", "harness/src/checks", "breadth-first explicit-state search whose states are clones of the real objects, reference model in lock-step on every transition"),
- ("E3-enumeration", "harness/src/checks", "bounded-exhaustive input enumeration against independent references"),
+ ("E3-enumeration", "harness/src/checks", "bounded-exhaustive input enumeration against independent references (C05 additionally delivers the enumerated datagrams to live real nodes through E1)"),
 ]
 
 def main():
